@@ -156,6 +156,18 @@ func funcInSlice(f *FuncSpec, prop string) bool {
 	return onlyStar
 }
 
+func funcHasTag(f *FuncSpec, prop string) bool {
+	if clauseTagged(f.Clauses, prop) {
+		return true
+	}
+	for _, l := range f.Loops {
+		if clauseTagged(l.Clauses, prop) {
+			return true
+		}
+	}
+	return false
+}
+
 // usesTagged: the function calls a function with a prop-tagged precondition, or performs a
 // channel / clock operation whose event hook has a prop-tagged clause.
 func usesTagged(w *World, sp *Specs, prog *Program, fi *FuncInfo, spec *FuncSpec, prop string) bool {
@@ -266,6 +278,33 @@ func cmdCheck(args []string) int {
 	}
 	t0 := time.Now()
 	code, ev := runCheck(o)
+	if o.prop == "C20" {
+		// C20 = ownership of the user-visible slices (C20-tagged heap-ownership obligations,
+		// decided above like every other property) + confinement of library state (typed AST)
+		sp, err := loadSpecs(o)
+		if err == nil {
+			cc, cev := runConfine(o, sp, &Evidence{PropertyID: o.prop, Tier: o.tier, Seed: o.seed, Level: "proof", Coverage: map[string]interface{}{}})
+			if n, ok := cev.Coverage["obligations"].(int); ok {
+				if m, ok2 := ev.Coverage["obligations"].(int); ok2 {
+					ev.Coverage["obligations"] = n + m
+				}
+			}
+			if n, ok := cev.Coverage["discharged"].(int); ok {
+				if m, ok2 := ev.Coverage["discharged"].(int); ok2 {
+					ev.Coverage["discharged"] = n + m
+				}
+			}
+			ev.Coverage["confinement"] = cev.Coverage
+			ev.Assumptions = append(ev.Assumptions, cev.Assumptions...)
+			ev.Violations += cev.Violations
+			if cc > code && !(code == 1) {
+				code = cc
+			}
+			if cc == 1 {
+				code = 1
+			}
+		}
+	}
 	ev.WallS = time.Since(t0).Seconds()
 	if o.only == "" && os.Getenv("VERIF_NOEVIDENCE") == "" {
 		writeEvidence(o, ev)
@@ -309,9 +348,6 @@ func runCheck(o *Options) (int, *Evidence) {
 	sp, err := loadSpecs(o)
 	if err != nil {
 		return undecided(ev, "CONTRACT-ERROR "+err.Error())
-	}
-	if o.prop == "C20" {
-		return runConfine(o, sp, ev)
 	}
 	pk := relevantPackages(sp, o.prop)
 	if len(pk) == 0 {
@@ -357,6 +393,7 @@ func runCheck(o *Options) (int, *Evidence) {
 	sort.Strings(keys)
 	var jobs []*job
 	var execs []*Exec
+	funcTagged := map[string]bool{}
 	var errs []string
 	var funcs []string
 	var trusted []string
@@ -376,6 +413,9 @@ func runCheck(o *Options) (int, *Evidence) {
 		}
 		if !funcInSlice(fsq, o.prop) && !usesTagged(w, sp, prog, fi, fsq, o.prop) {
 			continue
+		}
+		if funcHasTag(fsq, o.prop) {
+			funcTagged[fi.name()] = true
 		}
 		x := verifyFunc(w, sp, prog, fi, fsq, o.prop)
 		execs = append(execs, x)
@@ -643,6 +683,11 @@ func runCheck(o *Options) (int, *Evidence) {
 			continue
 		}
 		mine := hasTag(ob.Tags, o.prop)
+		if !mine && ob.Kind == "safety" && ob.Status == "failed-sat" && funcTagged[ob.Func] {
+			// a definite arithmetic / bounds failure in a function that carries clauses of this
+			// property: the proof of those clauses assumed machine arithmetic to be exact
+			mine = true
+		}
 		if what, ok := known[n]; ok && mine {
 			fmt.Printf("KNOWN-FINDING: property=%s %s (%s)\n", o.prop, what, n)
 			nDis++ // listed finding: not counted as undischarged for the exit status; reported in evidence
